@@ -63,6 +63,26 @@ pub enum OpK {
     /// C12: expectation supplied by the scenario generator for the next observations of
     /// exec(c, name, b): Some(value) or None = "must be a failure"
     Expect { c: usize, name: String, b: usize, keys: [u8; 16], want: Want },
+    /// several executions in flight at once (DESIGN.md §12.1): every part is an exec on its
+    /// own client thread, context and binding set; each call of a bound *yield function*
+    /// (`BindFunc` with ret = Other("yield")) parks the calling client inside its exec and
+    /// returns control to the scheduler, which then starts the next part or resumes a parked
+    /// one: byte j of `sched` picks action (byte mod #actions; 255 = the last one) from
+    /// ["start the next part" if one is left] ++ [parked parts in parking order] at step j,
+    /// action 0 once `sched` is used up (so an empty `sched` starts every part, then resumes
+    /// them first-parked-first-resumed).
+    /// Every part's result must equal its fresh twin's (which never parks).
+    Interleave { parts: Vec<IPart>, sched: Vec<u8>, keys: [u8; 16] },
+    /// internal: what the scheduler sends to a client for one part of an `Interleave`
+    IStart { c: usize, name: String, b: usize },
+}
+
+#[derive(Clone, Debug, Serialize, Deserialize, PartialEq)]
+pub struct IPart {
+    pub t: usize,
+    pub c: usize,
+    pub name: String,
+    pub b: usize,
 }
 
 #[derive(Clone, Debug, Serialize, Deserialize, PartialEq)]
@@ -114,6 +134,8 @@ pub fn case_skeleton(case: &J) -> String {
                     OpK::Exec { .. } => 'X',
                     OpK::Clock { .. } => 'T',
                     OpK::Expect { .. } => 'E',
+                    OpK::Interleave { .. } => 'I',
+                    OpK::IStart { .. } => 'i',
                 });
             }
             s
@@ -147,7 +169,102 @@ struct Reply {
 
 enum Req {
     Do(OpK),
+    /// continue an exec that is parked inside a yield function
+    Resume,
+    /// report the registry and this client's binding sets, do nothing else
+    Snap,
     Quit,
+}
+
+enum Up {
+    Done(Reply),
+    /// the client is inside an exec, blocked in a yield function
+    Parked,
+}
+
+struct ClientChan {
+    rx: mpsc::Receiver<Req>,
+    tx: mpsc::Sender<Up>,
+}
+
+thread_local! {
+    /// the channels of the client thread running on this OS thread (None on twin threads)
+    static CHAN: std::cell::RefCell<Option<ClientChan>> = const { std::cell::RefCell::new(None) };
+    /// true while this client executes a part of an `Interleave`
+    static PARKING: std::cell::Cell<bool> = const { std::cell::Cell::new(false) };
+    /// the binding sets this client owns (BindContext is not Send: they never leave the thread)
+    static BINDS: std::cell::RefCell<BTreeMap<usize, BindContext<'static>>> = const { std::cell::RefCell::new(BTreeMap::new()) };
+    static REGISTRY: std::cell::RefCell<Option<(Ctxs, Vec<String>)>> = const { std::cell::RefCell::new(None) };
+}
+
+/// one part of an `Interleave` on the calling client thread.  The context leaves the registry
+/// for the duration of the exec (other clients run while this one is parked inside it); the
+/// binding sets are only borrowed shared, so a nested part may use them as well.
+fn run_part(c: usize, name: &str, b: usize) -> Reply {
+    let mut rep = Reply::default();
+    let (ctxs, universe) = REGISTRY.with(|r| r.borrow().clone()).expect("client registry");
+    let taken = lock(&ctxs).remove(&c);
+    BINDS.with(|bs| {
+        let binds = bs.borrow();
+        match (taken, binds.get(&b)) {
+            (Some(mut x), Some(bb)) => {
+                let was = PARKING.with(|p| p.replace(true));
+                rep.execs.push(guarded_exec(&mut x, name, bb));
+                PARKING.with(|p| p.set(was));
+                lock(&ctxs).insert(c, x);
+            }
+            (Some(x), None) => {
+                lock(&ctxs).insert(c, x);
+                rep.skipped = true;
+            }
+            _ => rep.skipped = true,
+        }
+        rep.binds = snapshot_binds(&binds, &universe);
+    });
+    rep.ctxs = snapshot_ctxs(&lock(&ctxs), &universe);
+    rep
+}
+
+/// called by the yield function on whatever thread evaluates it: park inside the exec until
+/// the scheduler says Resume; a part started meanwhile on this same client runs right here,
+/// nested in the parked exec's stack (same-thread re-entrancy)
+fn park_here() {
+    if !PARKING.with(|p| p.get()) {
+        return;
+    }
+    let send = |u: Up| CHAN.with(|c| c.borrow().as_ref().map(|ch| ch.tx.send(u).is_ok()).unwrap_or(false));
+    let recv = || CHAN.with(|c| c.borrow().as_ref().map(|ch| ch.rx.recv().ok()).unwrap_or(None));
+    if !send(Up::Parked) {
+        return;
+    }
+    loop {
+        match recv() {
+            Some(Req::Do(OpK::IStart { c, name, b })) => {
+                let rep = run_part(c, &name, b);
+                if !send(Up::Done(rep)) {
+                    return;
+                }
+            }
+            // Resume, or a hang-up
+            _ => return,
+        }
+    }
+}
+
+fn snapshot_binds(binds: &BTreeMap<usize, BindContext<'static>>, universe: &[String]) -> BTreeMap<usize, BTreeMap<String, (Option<V>, bool)>> {
+    let mut out = BTreeMap::new();
+    for (id, b) in binds.iter() {
+        let mut m = BTreeMap::new();
+        for n in universe.iter() {
+            let v = b.get_param(n).map(V::from_cel);
+            let ib = b.is_bound(n);
+            if v.is_some() || ib {
+                m.insert(n.clone(), (v, ib));
+            }
+        }
+        out.insert(*id, m);
+    }
+    out
 }
 
 fn lock(c: &Ctxs) -> std::sync::MutexGuard<'_, BTreeMap<usize, CelContext>> {
@@ -181,8 +298,12 @@ pub fn json_safe(v: &V) -> bool {
 /// a simulator-owned function answering with a constant (leaked: a handful per run)
 fn const_func(ret: V) -> &'static rscel::RsCelFunction {
     // `Other("arg0")` stands for the identity function (answers with its first argument)
-    let identity = ret == V::Other("arg0".into());
+    let yielding = ret == V::Other("yield".into());
+    let identity = yielding || ret == V::Other("arg0".into());
     Box::leak(Box::new(move |_this: rscel::CelValue, args: Vec<rscel::CelValue>| -> rscel::CelValue {
+        if yielding {
+            park_here();
+        }
         if identity {
             args.into_iter().next().unwrap_or_else(rscel::CelValue::from_null)
         } else {
@@ -216,14 +337,30 @@ fn snapshot_ctxs(ctxs: &BTreeMap<usize, CelContext>, universe: &[String]) -> BTr
     out
 }
 
-fn client_main(keys: [u8; 16], ctxs: Ctxs, universe: Vec<String>, c09: bool, rx: mpsc::Receiver<Req>, tx: mpsc::Sender<Reply>) {
+fn client_main(keys: [u8; 16], ctxs: Ctxs, universe: Vec<String>, c09: bool, rx: mpsc::Receiver<Req>, tx: mpsc::Sender<Up>) {
     seams::set_thread_hash_keys(keys);
-    let mut binds: BTreeMap<usize, BindContext<'static>> = BTreeMap::new();
-    while let Ok(Req::Do(op)) = rx.recv() {
+    CHAN.with(|c| *c.borrow_mut() = Some(ClientChan { rx, tx }));
+    REGISTRY.with(|r| *r.borrow_mut() = Some((ctxs.clone(), universe.clone())));
+    let recv = || CHAN.with(|c| c.borrow().as_ref().unwrap().rx.recv());
+    let send = |r: Reply| CHAN.with(|c| c.borrow().as_ref().unwrap().tx.send(Up::Done(r)).is_ok());
+    loop {
+        let op = match recv() {
+            Ok(Req::Do(op)) => Some(op),
+            Ok(Req::Snap) => None,
+            _ => break,
+        };
+        if let Some(OpK::IStart { c, name, b }) = &op {
+            if !send(run_part(*c, name, *b)) {
+                break;
+            }
+            continue;
+        }
         let mut rep = Reply::default();
-        {
+        BINDS.with(|bs| {
+            let mut binds = bs.borrow_mut();
             let mut cs = lock(&ctxs);
-            match op {
+            match op.unwrap_or(OpK::IStart { c: 0, name: String::new(), b: 0 }) {
+                OpK::IStart { .. } | OpK::Interleave { .. } => {}
                 OpK::NewCtx { c } => {
                     cs.insert(c, CelContext::new());
                 }
@@ -318,22 +455,14 @@ fn client_main(keys: [u8; 16], ctxs: Ctxs, universe: Vec<String>, c09: bool, rx:
                 OpK::Clock { ns } => seams::clock_set(ns),
             }
             rep.ctxs = snapshot_ctxs(&cs, &universe);
-        }
-        for (id, b) in binds.iter() {
-            let mut m = BTreeMap::new();
-            for n in universe.iter() {
-                let v = b.get_param(n).map(V::from_cel);
-                let ib = b.is_bound(n);
-                if v.is_some() || ib {
-                    m.insert(n.clone(), (v, ib));
-                }
-            }
-            rep.binds.insert(*id, m);
-        }
-        if tx.send(rep).is_err() {
+            rep.binds = snapshot_binds(&binds, &universe);
+        });
+        if !send(rep) {
             break;
         }
     }
+    // binding sets die with their thread
+    BINDS.with(|bs| bs.borrow_mut().clear());
 }
 
 // ---------------------------------------------------------------------------------------------
@@ -446,6 +575,60 @@ fn run_twin(
     r
 }
 
+/// O-twin: the observed outcome of exec(name) against a fresh context + fresh bindings built
+/// from the model on a freshly spawned thread with other hash keys
+#[allow(clippy::too_many_arguments)]
+fn twin_verdict(
+    prop: WorldProp,
+    progs: &BTreeMap<String, ProgSnap>,
+    params: BTreeMap<String, V>,
+    funcs: BTreeMap<String, V>,
+    name: &str,
+    keys: [u8; 16],
+    minimal: bool,
+    first: &Outcome,
+    now_ns: i64,
+    i: usize,
+    t: usize,
+    how: &str,
+    fired: &mut BTreeMap<String, u64>,
+) -> Option<ViolationRec> {
+    let mut fire = |k: &str| *fired.entry(k.to_string()).or_insert(0) += 1;
+    let reach = reachable(progs, name);
+    let clocky = reaches_clock(progs, &reach);
+    let list: Vec<(String, String, i64)> = progs
+        .iter()
+        .filter(|(n, _)| !minimal || reach.contains(*n))
+        .map(|(n, p)| (n.clone(), p.src.clone(), p.add_ns))
+        .collect();
+    if minimal && list.len() < progs.len() {
+        fire("twin_without_unreachable_programs");
+    }
+    // a clock-free program is also moved in time: only the clock may differ and it
+    // must not matter
+    let exec_ns = if clocky { now_ns } else { now_ns.wrapping_add(777_000_000_123) };
+    let tw = run_twin(keys, list, params, funcs, name.to_string(), exec_ns, prop != WorldProp::C09);
+    fire("twin_on_fresh_thread");
+    if let Some(e) = tw.compile_err {
+        return Some(viol("twin", "compile", "the stored texts compile in a fresh context as they did in the original".into(), e, format!("op {}", i)));
+    }
+    let t_out = tw.outcome.unwrap();
+    if !t_out.same(first) {
+        let mut sub = format!("{}{}!={}", how, kind_of(first), kind_of(&t_out));
+        if prop == WorldProp::C09 {
+            sub = format!("frozen-clock:{}", sub);
+        }
+        return Some(viol(
+            if prop == WorldProp::C09 { "now-twin" } else { "twin" },
+            &sub,
+            format!("{} (fresh context + fresh bindings built from the model, fresh thread, other hash keys{})", t_out, if prop == WorldProp::C09 { ", compiled at the instant of execution" } else { "" }),
+            format!("{}", first),
+            format!("op {}: {}exec `{}` = `{}` on client {} at {} ns (compiled at {} ns)", i, how, name, progs.get(name).map(|p| p.src.as_str()).unwrap_or("<no such program>"), t, now_ns, progs.get(name).map(|p| p.add_ns).unwrap_or(0)),
+        ));
+    }
+    None
+}
+
 fn kind_of(o: &Outcome) -> &'static str {
     match o {
         Outcome::Val(_) => "value",
@@ -494,10 +677,10 @@ pub fn run_case(prop: WorldProp, case: &WorldCase) -> RunResult {
     let ctxs: Ctxs = Arc::new(Mutex::new(BTreeMap::new()));
     seams::clock_set(case.start_ns);
 
-    let mut chans: Vec<(mpsc::Sender<Req>, mpsc::Receiver<Reply>, std::thread::JoinHandle<()>)> = vec![];
+    let mut chans: Vec<(mpsc::Sender<Req>, mpsc::Receiver<Up>, std::thread::JoinHandle<()>)> = vec![];
     for keys in case.clients.iter() {
         let (tx, rx) = mpsc::channel::<Req>();
-        let (rtx, rrx) = mpsc::channel::<Reply>();
+        let (rtx, rrx) = mpsc::channel::<Up>();
         let (k, c, u) = (*keys, ctxs.clone(), universe.clone());
         let c09 = prop == WorldProp::C09;
         let h = std::thread::spawn(move || client_main(k, c, u, c09, rx, rtx));
@@ -522,14 +705,118 @@ pub fn run_case(prop: WorldProp, case: &WorldCase) -> RunResult {
         // a thread that does not own it cannot be expressed with the real API (BindContext is
         // not Send) and is skipped
         let now_ns = seams::clock_now();
+        // ---- several executions in flight at once
+        let mut part_reps: Vec<(usize, Option<Reply>)> = vec![];
+        if let OpK::Interleave { parts, sched, .. } = &op.k {
+            // a part needs its own client and context; anything else cannot be expressed with
+            // the real API and is left out (so that every sub-case of a case is a case)
+            // (two parts on one client are legal: the second runs nested inside the first's
+            // parked exec, on the same OS thread)
+            let mut used_c = BTreeSet::new();
+            let valid: Vec<usize> = (0..parts.len())
+                .filter(|j| {
+                    let p = &parts[*j];
+                    p.t < chans.len()
+                        && model.ctxs.contains_key(&p.c)
+                        && model.binds.get(&p.b).map(|(o, _)| *o == p.t).unwrap_or(false)
+                        && used_c.insert(p.c)
+                })
+                .collect();
+            let mut started = 0usize;
+            // parked parts in parking order; per client only the innermost one can be resumed
+            let mut parked: Vec<usize> = vec![];
+            let mut si = 0usize;
+            let mut max_parked = 0usize;
+            let mut died = false;
+            for j in valid.iter() {
+                part_reps.push((*j, None));
+            }
+            loop {
+                let can_start = started < valid.len();
+                let resumable: Vec<usize> = parked
+                    .iter()
+                    .enumerate()
+                    .filter(|(pi, slot)| {
+                        let t = parts[valid[**slot]].t;
+                        !parked[pi + 1..].iter().any(|later| parts[valid[*later]].t == t)
+                    })
+                    .map(|(pi, _)| pi)
+                    .collect();
+                let n_actions = resumable.len() + can_start as usize;
+                if n_actions == 0 {
+                    break;
+                }
+                let choice = match sched.get(si) {
+                    Some(255) => n_actions - 1,
+                    Some(x) => *x as usize % n_actions,
+                    None => 0,
+                };
+                si += 1;
+                let slot = if !(can_start && choice == 0) {
+                    let slot = parked.remove(resumable[choice - can_start as usize]);
+                    let p = &parts[valid[slot]];
+                    if chans[p.t].0.send(Req::Resume).is_err() {
+                        died = true;
+                        break;
+                    }
+                    fire(&mut fired, "interleave_resume");
+                    slot
+                } else {
+                    let slot = started;
+                    started += 1;
+                    let p = &parts[valid[slot]];
+                    if chans[p.t].0.send(Req::Do(OpK::IStart { c: p.c, name: p.name.clone(), b: p.b })).is_err() {
+                        died = true;
+                        break;
+                    }
+                    if !parked.is_empty() {
+                        fire(&mut fired, "interleave_start_while_others_parked");
+                    }
+                    if parked.iter().any(|q| parts[valid[*q]].t == p.t) {
+                        fire(&mut fired, "interleave_nested_start_on_same_thread");
+                    }
+                    slot
+                };
+                let p = &parts[valid[slot]];
+                match chans[p.t].1.recv() {
+                    Ok(Up::Parked) => {
+                        parked.push(slot);
+                        max_parked = max_parked.max(parked.len());
+                        fire(&mut fired, "interleave_park");
+                    }
+                    Ok(Up::Done(r)) => {
+                        if !parked.is_empty() {
+                            fire(&mut fired, "interleave_exec_completed_while_others_parked");
+                        }
+                        part_reps[slot].1 = Some(r);
+                    }
+                    Err(_) => {
+                        died = true;
+                        break;
+                    }
+                }
+            }
+            if died {
+                violation = Some(viol("process-survives", "client-thread-died", "every interleaved exec returns".into(), "a client thread died during an interleaved exec".into(), format!("op {}", i)));
+                break;
+            }
+            if max_parked >= 2 {
+                fire(&mut fired, "interleave_two_or_more_parked");
+            }
+            if max_parked >= 8 {
+                fire(&mut fired, "interleave_eight_or_more_parked");
+            }
+            stats.ops += valid.len() as u64;
+        }
+        let snap_only = matches!(op.k, OpK::Interleave { .. } | OpK::IStart { .. });
         let (tx, rrx, _) = &chans[op.t];
-        if tx.send(Req::Do(op.k.clone())).is_err() {
+        if tx.send(if snap_only { Req::Snap } else { Req::Do(op.k.clone()) }).is_err() {
             violation = Some(viol("process-survives", "client-thread-died", "the client thread serves the operation".into(), "client thread gone".into(), format!("op {}", i)));
             break;
         }
         let rep = match rrx.recv() {
-            Ok(r) => r,
-            Err(_) => {
+            Ok(Up::Done(r)) => r,
+            _ => {
                 violation = Some(viol("process-survives", "client-thread-died", "the operation returns".into(), "the client thread died during the operation".into(), format!("op {} {:?}", i, op.k)));
                 break;
             }
@@ -692,42 +979,44 @@ pub fn run_case(prop: WorldProp, case: &WorldCase) -> RunResult {
                     }
                 }
                 // twin
-                let list: Vec<(String, String, i64)> = progs
-                    .iter()
-                    .filter(|(n, _)| !*minimal || reach.contains(*n))
-                    .map(|(n, p)| (n.clone(), p.src.clone(), p.add_ns))
-                    .collect();
-                if *minimal && list.len() < progs.len() {
-                    fire(&mut fired, "twin_without_unreachable_programs");
-                }
-                // a clock-free program is also moved in time: only the clock may differ and it
-                // must not matter
-                let exec_ns = if clocky { now_ns } else { now_ns.wrapping_add(777_000_000_123) };
                 let funcs = model.funcs.get(b).cloned().unwrap_or_default();
-                let tw = run_twin(*keys, list, params, funcs, name.clone(), exec_ns, prop != WorldProp::C09);
-                fire(&mut fired, "twin_on_fresh_thread");
-                if let Some(e) = tw.compile_err {
-                    violation = Some(viol("twin", "compile", "the stored texts compile in a fresh context as they did in the original".into(), e, format!("op {}", i)));
-                    break 'ops;
-                }
-                let t = tw.outcome.unwrap();
-                if !t.same(&first) {
-                    let mut sub = format!("{}!={}", kind_of(&first), kind_of(&t));
-                    if prop == WorldProp::C09 {
-                        sub = format!("frozen-clock:{}", sub);
-                    }
-                    violation = Some(viol(
-                        if prop == WorldProp::C09 { "now-twin" } else { "twin" },
-                        &sub,
-                        format!("{} (fresh context + fresh bindings built from the model, fresh thread, other hash keys{})", t, if prop == WorldProp::C09 { ", compiled at the instant of execution" } else { "" }),
-                        format!("{}", first),
-                        format!("op {}: exec `{}` = `{}` on client {} at {} ns (compiled at {} ns)", i, name, progs.get(name).map(|p| p.src.as_str()).unwrap_or("<no such program>"), op.t, now_ns, progs.get(name).map(|p| p.add_ns).unwrap_or(0)),
-                    ));
+                if let Some(v) = twin_verdict(prop, &progs, params, funcs, name, *keys, *minimal, &first, now_ns, i, op.t, "", &mut fired) {
+                    violation = Some(v);
                     break 'ops;
                 }
                 if let Outcome::Val(V::List(_)) = &first {
                     if progs.get(name).map(|p| p.src.contains("map(") || p.src.contains("filter(")).unwrap_or(false) {
                         fire(&mut fired, "list_result_of_macro_compared_with_twin");
+                    }
+                }
+            }
+            OpK::IStart { .. } => {}
+            OpK::Interleave { parts, keys, .. } => {
+                fire(&mut fired, "interleave");
+                for (j, r) in part_reps.iter() {
+                    let p = &parts[*j];
+                    let r = match r {
+                        Some(r) if !r.skipped && !r.execs.is_empty() => r,
+                        _ => continue,
+                    };
+                    let progs = match model.ctxs.get(&p.c) {
+                        Some(x) => x.clone(),
+                        None => continue,
+                    };
+                    let params = match model.binds.get(&p.b) {
+                        Some((_, x)) => x.clone(),
+                        None => continue,
+                    };
+                    let funcs = model.funcs.get(&p.b).cloned().unwrap_or_default();
+                    stats.callback_events += 1;
+                    let first = r.execs[0].0.clone();
+                    dkey.push_str(&format!("i{};", kind_of(&first)));
+                    // each part gets its own twin keys derived from the op's
+                    let mut k2 = *keys;
+                    k2[0] ^= *j as u8;
+                    if let Some(v) = twin_verdict(prop, &progs, params, funcs, &p.name, k2, false, &first, now_ns, i, p.t, "interleaved:", &mut fired) {
+                        violation = Some(v);
+                        break 'ops;
                     }
                 }
             }
@@ -791,10 +1080,14 @@ pub fn run_case(prop: WorldProp, case: &WorldCase) -> RunResult {
             }
         }
         for (b, (owner, m)) in model.binds.iter() {
-            if *owner != op.t {
+            let part_rep = part_reps.iter().find_map(|(j, r)| match (&op.k, r) {
+                (OpK::Interleave { parts, .. }, Some(r)) if parts[*j].t == *owner => Some(r),
+                _ => None,
+            });
+            if *owner != op.t && part_rep.is_none() {
                 continue;
             }
-            let obs = rep.binds.get(b).cloned().unwrap_or_default();
+            let obs = if *owner == op.t { rep.binds.get(b).cloned().unwrap_or_default() } else { part_rep.unwrap().binds.get(b).cloned().unwrap_or_default() };
             for n in universe.iter() {
                 let want = m.get(n);
                 let (got, bound) = obs.get(n).cloned().unwrap_or((None, false));
